@@ -305,7 +305,10 @@ PROPS["C02"] = _hist("C02",
     "a build restored a target after its workspace outputs were perturbed, or rebuilt only part of the selection")
 PROPS["C13"] = _hist("C13",
     "histories: workspaces where targets may carry no-cache, steps {grog taint <label or //...>, toggle no-cache tag, content/nonce edits, builds with and without --enable-cache=false}. A tainted / no-cache / cache-disabled target must have an S line; after a successful forced run the taint is consumed (next build: MUST-NOT); dependants with a good entry whose dependency reproduced identical outputs are MUST-NOT.",
-    "a target was forced to run although a good entry for its state existed", quick=144)
+    "a target was forced to run although a good entry for its state existed (hash-agreement: >=2 outputs or a symlinked file output)", quick=144,
+    extra_parts=[{"name": "hash-agreement", "pkg": "c06", "test": "TestHashAgreement",
+                  "quick": {"shards": 4, "checks": 3000, "cap": 600}, "thorough": {"shards": 8, "checks": 80000, "cap": 3600}}])
+PROPS["C13"]["rule"] = PROPS["C13"]["rule"].replace(" Non-trivial = ", " hash-agreement (in-process, real output registry): C06's generated outputs plus file outputs that are symbolic links; the output hash of the cached path (WriteOutputs) and of the uncached path (GetNoCacheOutputHash) must be equal for the same outputs on disk, and both must change after a change of content or exec bit of a file output and stay put after a rewrite with identical bytes. Non-trivial = ")
 PROPS["C14"] = _hist("C14",
     "histories: targets carry 0-2 output checks over an external marker (outside the workspace, never an input; with and without expected_output; the command may or may not establish it), timeouts of 2 s; steps {destroy marker, set marker (right or wrong content), stop establishing, skip a declared output, make the command slow, clear switches, edits, builds}. "
     "A target whose check fails before the cache decision must run; if checks still fail after execution, or an output is missing, or the timeout hits, the build must exit non-zero, name the target, skip dependants and record nothing (next build runs it again).",
